@@ -581,7 +581,7 @@ func Scopes(quick bool) []Scope {
 			c.Stride(map[bool]int{true: 150, false: 6}[quick])
 			w := baseWorld()
 			w.NSs = append(w.NSs, wm.NS{Name: "ns2", Labels: map[string]string{"team": "b"}, HasObj: true})
-			w.WLs = append(w.WLs, wm.Workload{Kind: "Deployment", NS: "ns2", Name: "w3", Labels: map[string]string{"app": "a"}, Ports: []wm.CPort{{Name: "http", Num: 8080}}, Replicas: 1})
+			w.WLs = append(w.WLs, wm.Workload{Kind: "Deployment", NS: "ns2", Name: "w1", Labels: map[string]string{"app": "a"}, Ports: []wm.CPort{{Name: "http", Num: 8080}}, Replicas: 1})
 			a := wm.NP{NS: "ns1", Name: "pa", PodSel: *ml("app", "a"), Types: typesA, Ingress: []wm.NPRule{rules[r1]}, Egress: []wm.NPRule{rules[r1]}}
 			b := wm.NP{NS: nsB, Name: "pb", PodSel: *selB, Types: []string{"Ingress", "Egress"}, Ingress: []wm.NPRule{rules[r2]}, Egress: []wm.NPRule{rules[(r2+7)%len(rules)]}}
 			w.NPs = []wm.NP{a, b}
